@@ -11,6 +11,7 @@
 //! trusted: R15 (deep slices): ChannelMonitorImpl::is_resolving_htlc_output: the two predicates that decide whether an on-chain preimage claim has already been reported (closure bodies of the `any` over pending_monitor_events) and the two HTLCUpdate values pushed as MonitorEvent::HTLCEvent, verbatim as functions; struct HTLCUpdate is extracted; HTLCSource opaque with structural equality; scanning the commitment for the HTLC, the ANTI_REORG_DELAY bookkeeping and the timeout branch are dropped and not claimed
 //! trusted: env: the BTreeMap<ChannelId, Vec<RAAMonitorUpdateBlockingAction>> is an environment type whose entry API carries the std contracts, written with Verus' mutable-reference prophecy: entry(k) lends the slot of k (None when absent), what is left in the slot is what the map holds afterwards; or_insert_with / or_insert / or_default fill an empty slot (with the result of the closure / the value / an empty Vec) and lend the vector; Vec::new has vstd's specification; a key closure without a specification is unconstrained; RAAMonitorUpdateBlockingAction is opaque, from_prev_hop_data is an uninterpreted function of the hop data; R3: log_trace! statements removed; R10: `blocked_peer_state.lock().unwrap()` is written `blocked_peer_state` (Mutex guard elided: single-threaded reading)
 //! trusted: assume_specification for core::cmp::max / core::cmp::min (std definitions): present in every unit so that a change that introduces them is verified instead of being rejected by the tool
+//! trusted: outbound_claim: R15 (deep slice): claim_funds_internal, arm OutboundRoute: the expression that chooses the event completion action, verbatim as a function of the values in scope (the equality of the next channel's counterparty and the path's first hop is LDK's debug_assert_eq!, taken as the precondition)
 use vstd::prelude::*;
 verus! {
 use vstd::std_specs::cmp::*;
@@ -382,6 +383,40 @@ pub enum Replay { Skip, FailRead, Claim((HTLCSource, PaymentPreimage, u64, bool,
     match args.channel_monitors.get(&prev_hop.channel_id) {
 //@with
     match args.channel_monitors.get(channel_id) {
+//@end
+}
+
+// ---- claim_funds_internal, our own payment: which monitor update the claim's event releases once the user has seen it ----
+pub mod outbound_claim {
+use vstd::prelude::*;
+#[derive(Clone, Copy)] pub struct PublicKey { pub id: u64 }
+#[derive(Clone, Copy)] pub struct OutPoint { pub id: u64 }
+#[derive(Clone, Copy)] pub struct ChannelId { pub id: u64 }
+#[derive(Clone, Copy)] pub struct SentHTLCId { pub id: u64 }
+pub struct RouteHop { pub pubkey: PublicKey }
+pub struct Path { pub hops: Vec<RouteHop> }
+pub struct PaymentCompleteUpdate { pub counterparty_node_id: PublicKey, pub channel_funding_outpoint: OutPoint, pub channel_id: ChannelId, pub htlc_id: SentHTLCId }
+pub enum EventCompletionAction {
+    ReleaseRAAChannelMonitorUpdate { counterparty_node_id: PublicKey, channel_funding_outpoint: Option<OutPoint>, channel_id: ChannelId },
+    ReleasePaymentCompleteChannelMonitorUpdate(PaymentCompleteUpdate),
+}
+//@extract lightning/src/ln/channelmanager.rs :: impl ChannelManager :: fn claim_funds_internal
+//@slice R15
+    let mut ev_completion_action = $e:seq; let logger = WithContext::for_payment(
+//@with
+    fn update_released_by_the_claims_event(from_onchain: bool, next_channel_counterparty_node_id: PublicKey, next_channel_outpoint: OutPoint, next_channel_id: ChannelId, htlc_id: SentHTLCId, path: &Path) -> Option<EventCompletionAction> {
+        let mut ev_completion_action = $e; ev_completion_action }
+//@ret r
+//@requires
+    path.hops@.len() >= 1, next_channel_counterparty_node_id == path.hops@[0].pubkey,
+//@ensures P C02,C10 the-event-for-a-claimed-outbound-htlc-releases-the-update-of-the-channel-the-claim-came-from-the-held-revocation-for-a-claim-by-message-the-payment-complete-update-for-a-claim-seen-on-chain
+    from_onchain ==> r == Some(EventCompletionAction::ReleasePaymentCompleteChannelMonitorUpdate(PaymentCompleteUpdate { counterparty_node_id: next_channel_counterparty_node_id,
+        channel_funding_outpoint: next_channel_outpoint, channel_id: next_channel_id, htlc_id })),
+    !from_onchain ==> r == Some(EventCompletionAction::ReleaseRAAChannelMonitorUpdate { counterparty_node_id: next_channel_counterparty_node_id, channel_funding_outpoint: Some(next_channel_outpoint), channel_id: next_channel_id }),
+//@mutant on_chain_claim_releases_the_held_revocation_instead
+    let mut ev_completion_action = if from_onchain {
+//@with
+    let mut ev_completion_action = if from_onchain && false {
 //@end
 }
 }
